@@ -107,6 +107,21 @@ def debug_nodes(dt) -> list:
     return sorted(out)
 
 
+def debug_times(dt) -> list:
+    """[(time index, absolute time in ticks or BADTICK)] announced by the nodes of the /intermediate tree."""
+    out = []
+    if "intermediate" not in dt.children:
+        return out
+    for tname, tnode in dt["/intermediate"].children.items():
+        if tname.startswith("time_idx_"):
+            txt = str(tnode.attrs.get("time", "")).replace("s", "").strip()
+            try:
+                out.append([int(tname.split("_")[-1]), px.to_ticks(float(txt))])
+            except Exception:
+                out.append([int(tname.split("_")[-1]), px.BADTICK])
+    return sorted(out)
+
+
 def debug_changed(dt) -> dict:
     """{"k/g/name": {bucket: level}} recorded by the debug capture."""
     out = {}
@@ -166,6 +181,7 @@ def record_session(cfg: dict, ops: list, construction: str = "python", debug: bo
         return {"cfg": cfg, "events": [{"e": "harness-error", "why": traceback.format_exc()[-400:]}],
                 "meta": meta}
     events: list = []
+    debug_runs: list = []
     ran = False          # a run was closed and no restart emitted yet
 
     def restart_if_needed():
@@ -190,6 +206,11 @@ def record_session(cfg: dict, ops: list, construction: str = "python", debug: bo
                 else:
                     events.extend(pm.SINK.events)
                     events.append({"e": "done", "result": px.project_result(dt)})
+                    if debug:
+                        calls = sorted({(ev["clock"]["count"], ev["g"], ev["name"]) for ev in pm.SINK.events if ev["e"] == "call"})
+                        debug_runs.append({"nodes": debug_nodes(dt), "calls": [list(c) for c in calls],
+                                           "times": debug_times(dt), "abs": sorted({(ev["clock"]["count"], ev["clock"]["abs"])
+                                                                                     for ev in pm.SINK.events if ev["e"] == "call"})})
                 ran = True
             elif what == "toggle":
                 _, g, m, how = op
@@ -237,4 +258,7 @@ def record_session(cfg: dict, ops: list, construction: str = "python", debug: bo
         except Exception:
             events.append({"e": "harness-error", "why": traceback.format_exc()[-400:]})
             break
-    return {"cfg": cfg, "events": events, "meta": meta}
+    out = {"cfg": cfg, "events": events, "meta": meta}
+    if debug:
+        out["debug_runs"] = debug_runs
+    return out
